@@ -1,0 +1,425 @@
+//! C08 adapter: a real `TransportService` behind the line protocol.
+//!
+//! The harness plays everything around the service: it injects `InnerTransportEvent`s into the
+//! service's channel (in any order, feasible or not) and owns the command receivers that stand
+//! for the connection tasks, so `OpenSubstream` commands can be received, answered, failed or
+//! dropped by operations. The keep-alive timeout is one hour, so handles stay `Active` (C09 has
+//! its own adapter with logical time).
+//!
+//! Operations: `cfg <cap>` | `est <p> <conn>` | `closed <p> <conn>` | `open <p>` |
+//! `conn_recv <conn>` | `conn_drop <conn>` | `subopen <p> <sid|in> <conn>` | `subfail <sid>` |
+//! `dialfail <p>` | `bump <k>` | `next`.
+
+use super::*;
+use crate::{
+    codec::ProtocolCodec,
+    protocol::{Direction, Permit, ProtocolCommand},
+    transport::manager::handle::InnerTransportManagerCommand,
+    verif::{peer, peer_index, VerifBox},
+    BandwidthSink,
+};
+
+use tokio::sync::mpsc::error::TryRecvError;
+use tokio_util::compat::{FuturesAsyncReadCompatExt, TokioAsyncReadCompatExt};
+
+use std::panic::{catch_unwind, AssertUnwindSafe};
+
+/// Extract the number from the `Debug` form of an id newtype (`ConnectionId(5)`).
+pub(crate) fn id_num<T: Debug>(id: &T) -> usize {
+    format!("{id:?}")
+        .chars()
+        .filter(|c| c.is_ascii_digit())
+        .collect::<String>()
+        .parse()
+        .expect("id")
+}
+
+/// In-memory yamux connection used only to mint real `Substream` objects.
+pub(crate) struct StreamMint {
+    connection: crate::yamux::Connection<tokio_util::compat::Compat<tokio::io::DuplexStream>>,
+    _remote: tokio::io::DuplexStream,
+}
+
+impl StreamMint {
+    pub(crate) fn new() -> Self {
+        let (local, remote) = tokio::io::duplex(1 << 16);
+        Self {
+            connection: crate::yamux::Connection::new(
+                local.compat(),
+                crate::yamux::Config::default(),
+                crate::yamux::Mode::Client,
+            ),
+            _remote: remote,
+        }
+    }
+
+    /// A real TCP-flavoured substream holding `lifetime_permit` (as the TCP connection task
+    /// builds it in `handle_negotiated_substream`).
+    pub(crate) fn substream(
+        &mut self,
+        peer: PeerId,
+        substream_id: SubstreamId,
+        lifetime_permit: Option<Permit>,
+    ) -> crate::substream::Substream {
+        let waker = futures::task::noop_waker();
+        let mut cx = Context::from_waker(&waker);
+        let stream = match self.connection.poll_new_outbound(&mut cx) {
+            Poll::Ready(Ok(stream)) => stream,
+            other => panic!("adapter: cannot mint a yamux stream: {other:?}"),
+        };
+        crate::substream::Substream::new_tcp(
+            peer,
+            substream_id,
+            crate::transport::tcp::Substream::new(
+                stream.compat(),
+                BandwidthSink::new(),
+                lifetime_permit,
+            ),
+            ProtocolCodec::Identity(32),
+        )
+    }
+}
+
+struct Conn {
+    tx: Sender<ProtocolCommand>,
+    rx: Option<Receiver<ProtocolCommand>>,
+    /// Permits of commands received by `conn_recv`, by substream id.
+    held: HashMap<usize, Permit>,
+}
+
+pub struct ServiceBox {
+    rt: tokio::runtime::Runtime,
+    svc: Option<TransportService>,
+    tx: Option<Sender<InnerTransportEvent>>,
+    _mgr_rx: Option<Receiver<InnerTransportManagerCommand>>,
+    counter: Arc<AtomicUsize>,
+    cap: usize,
+    conns: HashMap<usize, Conn>,
+    mint: Option<StreamMint>,
+    poisoned: bool,
+}
+
+/// Guarded constructor wrapper: what the unit tests of `transport_service.rs` use.
+pub(crate) fn make_service(
+    protocol: &'static str,
+    counter: Arc<AtomicUsize>,
+    keep_alive_timeout: Duration,
+    keep_alive: SubstreamKeepAlive,
+) -> (
+    TransportService,
+    Sender<InnerTransportEvent>,
+    Receiver<InnerTransportManagerCommand>,
+) {
+    let (cmd_tx, cmd_rx) = channel(64);
+    let local = peer(0);
+    let handle = TransportManagerHandle::new(
+        local,
+        Arc::new(parking_lot::RwLock::new(HashMap::new())),
+        cmd_tx,
+        HashSet::new(),
+        Default::default(),
+        PublicAddresses::new(local),
+    );
+    let (service, sender) = TransportService::new(
+        local,
+        ProtocolName::from(protocol),
+        Vec::new(),
+        counter,
+        handle,
+        keep_alive_timeout,
+        keep_alive,
+    );
+    (service, sender, cmd_rx)
+}
+
+pub(crate) fn show_event(event: &TransportEvent) -> String {
+    let p = |peer: &PeerId| peer_index(peer).map(|i| i.to_string()).unwrap_or_else(|| "?".into());
+    match event {
+        TransportEvent::ConnectionEstablished { peer, .. } => format!("est:{}", p(peer)),
+        TransportEvent::ConnectionClosed { peer } => format!("closed:{}", p(peer)),
+        TransportEvent::SubstreamOpened { peer, direction, .. } => match direction {
+            Direction::Outbound(sid) => format!("sub:{}:out{}", p(peer), id_num(sid)),
+            Direction::Inbound => format!("sub:{}:in", p(peer)),
+        },
+        TransportEvent::SubstreamOpenFailure { substream, .. } =>
+            format!("fail:{}", id_num(substream)),
+        TransportEvent::DialFailure { peer, .. } => format!("dialfail:{}", p(peer)),
+    }
+}
+
+/// Poll the service's event stream until it is `Pending` twice in a row (with a yield to the
+/// scheduler in between, so tokio's cooperative budget cannot cut the drain short). A panic in
+/// the service is reported as `Err(events so far, message)`.
+pub(crate) fn drain_service(
+    rt: &tokio::runtime::Runtime,
+    svc: &mut TransportService,
+) -> Result<Vec<String>, (Vec<String>, String)> {
+    let mut out = Vec::new();
+    let mut pendings = 0;
+    while pendings < 2 {
+        let polled = catch_unwind(AssertUnwindSafe(|| {
+            rt.block_on(async {
+                let polled =
+                    futures::future::poll_fn(|cx| Poll::Ready(svc.poll_next_unpin(cx))).await;
+                tokio::task::yield_now().await;
+                polled
+            })
+        }));
+        match polled {
+            Ok(Poll::Ready(Some(event))) => {
+                pendings = 0;
+                out.push(show_event(&event));
+            }
+            Ok(Poll::Ready(None)) => {
+                out.push("end".into());
+                break;
+            }
+            Ok(Poll::Pending) => pendings += 1,
+            Err(error) => {
+                let msg = error
+                    .downcast_ref::<&str>()
+                    .map(|s| s.to_string())
+                    .or_else(|| error.downcast_ref::<String>().cloned())
+                    .unwrap_or_else(|| "?".into());
+                return Err((out, msg));
+            }
+        }
+    }
+    Ok(out)
+}
+
+pub(crate) fn show_connections(svc: &TransportService) -> String {
+    let mut rows: Vec<(u64, String)> = svc
+        .connections
+        .iter()
+        .map(|(peer, context)| {
+            let i = peer_index(peer).unwrap_or(u64::MAX);
+            (
+                i,
+                format!(
+                    "{}:{}/{}",
+                    i,
+                    id_num(context.primary.connection_id()),
+                    context
+                        .secondary
+                        .as_ref()
+                        .map(|h| id_num(h.connection_id()).to_string())
+                        .unwrap_or_else(|| "-".into())
+                ),
+            )
+        })
+        .collect();
+    rows.sort();
+    format!("[{}]", rows.into_iter().map(|r| r.1).collect::<Vec<_>>().join(","))
+}
+
+impl ServiceBox {
+    pub fn new() -> Self {
+        Self {
+            rt: tokio::runtime::Builder::new_current_thread()
+                .enable_time()
+                .build()
+                .expect("runtime"),
+            svc: None,
+            tx: None,
+            _mgr_rx: None,
+            counter: Arc::new(AtomicUsize::new(0)),
+            cap: 2,
+            conns: HashMap::new(),
+            mint: None,
+            poisoned: false,
+        }
+    }
+
+    fn setup(&mut self, cap: usize) {
+        self.counter = Arc::new(AtomicUsize::new(0));
+        let (svc, tx, mgr_rx) = make_service(
+            "/verif/1",
+            self.counter.clone(),
+            Duration::from_secs(3600),
+            SubstreamKeepAlive::Yes,
+        );
+        self.svc = Some(svc);
+        self.tx = Some(tx);
+        self._mgr_rx = Some(mgr_rx);
+        self.cap = cap;
+        self.conns.clear();
+        self.poisoned = false;
+    }
+
+    fn inject(&mut self, event: InnerTransportEvent) -> String {
+        match self.tx.as_ref().expect("cfg first").try_send(event) {
+            Ok(()) => "ok".into(),
+            Err(_) => "inject-failed".into(),
+        }
+    }
+}
+
+impl VerifBox for ServiceBox {
+    fn step(&mut self, line: &str) -> String {
+        if self.poisoned {
+            return "skipped".into();
+        }
+        let t: Vec<&str> = line.split_whitespace().collect();
+        let n = |s: &str| s.parse::<usize>().ok();
+        match t.as_slice() {
+            ["cfg", cap] => match n(cap) {
+                Some(cap) => {
+                    self.setup(cap);
+                    "ok".into()
+                }
+                None => "bad-op".into(),
+            },
+            _ if self.svc.is_none() => {
+                self.setup(2);
+                self.step(line)
+            }
+            ["est", p, c] => {
+                let (Some(p), Some(c)) = (n(p), n(c)) else { return "bad-op".into() };
+                let cap = self.cap.max(1);
+                let conn = self.conns.entry(c).or_insert_with(|| {
+                    let (tx, rx) = channel(cap);
+                    Conn {
+                        tx,
+                        rx: Some(rx),
+                        held: HashMap::new(),
+                    }
+                });
+                let sender = ConnectionHandle::new(ConnectionId::from(c), conn.tx.clone());
+                self.inject(InnerTransportEvent::ConnectionEstablished {
+                    peer: peer(p as u64),
+                    connection: ConnectionId::from(c),
+                    endpoint: Endpoint::listener(Multiaddr::empty(), ConnectionId::from(c)),
+                    sender,
+                })
+            }
+            ["closed", p, c] => {
+                let (Some(p), Some(c)) = (n(p), n(c)) else { return "bad-op".into() };
+                self.inject(InnerTransportEvent::ConnectionClosed {
+                    peer: peer(p as u64),
+                    connection: ConnectionId::from(c),
+                })
+            }
+            ["subopen", p, sid, c] => {
+                let (Some(p), Some(c)) = (n(p), n(c)) else { return "bad-op".into() };
+                let direction = match (*sid, n(sid)) {
+                    ("in", _) => Direction::Inbound,
+                    (_, Some(sid)) => Direction::Outbound(SubstreamId::from(sid)),
+                    _ => return "bad-op".into(),
+                };
+                let sid_num = n(sid).unwrap_or(usize::MAX);
+                // the permit of the received command if there is one, else a fresh one
+                let opening_permit = match self.conns.get_mut(&c) {
+                    Some(conn) => conn
+                        .held
+                        .remove(&sid_num)
+                        .unwrap_or_else(|| Permit::new(conn.tx.clone())),
+                    None => Permit::new(channel(1).0),
+                };
+                let substream = self.mint.get_or_insert_with(StreamMint::new).substream(
+                    peer(p as u64),
+                    SubstreamId::from(sid_num),
+                    Some(opening_permit.clone()),
+                );
+                self.inject(InnerTransportEvent::SubstreamOpened {
+                    peer: peer(p as u64),
+                    protocol: ProtocolName::from("/verif/1"),
+                    fallback: None,
+                    direction,
+                    substream,
+                    connection_id: ConnectionId::from(c),
+                    opening_permit,
+                })
+            }
+            ["subfail", sid] => {
+                let Some(sid) = n(sid) else { return "bad-op".into() };
+                for conn in self.conns.values_mut() {
+                    conn.held.remove(&sid);
+                }
+                self.inject(InnerTransportEvent::SubstreamOpenFailure {
+                    substream: SubstreamId::from(sid),
+                    error: SubstreamError::ConnectionClosed,
+                })
+            }
+            ["dialfail", p] => {
+                let Some(p) = n(p) else { return "bad-op".into() };
+                self.inject(InnerTransportEvent::DialFailure {
+                    peer: peer(p as u64),
+                    addresses: Vec::new(),
+                })
+            }
+            ["bump", k] => {
+                let Some(k) = n(k) else { return "bad-op".into() };
+                self.counter.fetch_add(k, Ordering::Relaxed);
+                "ok".into()
+            }
+            ["open", p] => {
+                let Some(p) = n(p) else { return "bad-op".into() };
+                let svc = self.svc.as_mut().expect("service");
+                let target = svc
+                    .connections
+                    .get(&peer(p as u64))
+                    .map(|context| id_num(context.primary.connection_id()));
+                match svc.open_substream(peer(p as u64)) {
+                    Ok(sid) => format!(
+                        "ok {} {}",
+                        id_num(&sid),
+                        target.map(|c| c.to_string()).unwrap_or_else(|| "?".into())
+                    ),
+                    Err(SubstreamError::PeerDoesNotExist(_)) => "err no-peer".into(),
+                    Err(SubstreamError::ConnectionClosed) => "err closed".into(),
+                    Err(SubstreamError::ChannelClogged) => "err clogged".into(),
+                    Err(other) => format!("err other:{other:?}"),
+                }
+            }
+            ["conn_recv", c] => {
+                let Some(c) = n(c) else { return "bad-op".into() };
+                let Some(conn) = self.conns.get_mut(&c) else { return "gone".into() };
+                let Some(rx) = conn.rx.as_mut() else { return "gone".into() };
+                match rx.try_recv() {
+                    Ok(ProtocolCommand::OpenSubstream {
+                        substream_id,
+                        connection_id,
+                        permit,
+                        ..
+                    }) => {
+                        conn.held.insert(id_num(&substream_id), permit);
+                        format!("open {} {}", id_num(&substream_id), id_num(&connection_id))
+                    }
+                    Ok(ProtocolCommand::ForceClose) => "force-close".into(),
+                    Err(TryRecvError::Empty) => "empty".into(),
+                    Err(TryRecvError::Disconnected) => "disconnected".into(),
+                }
+            }
+            ["conn_drop", c] => {
+                let Some(c) = n(c) else { return "bad-op".into() };
+                if let Some(conn) = self.conns.get_mut(&c) {
+                    conn.rx = None;
+                    conn.held.clear();
+                }
+                "ok".into()
+            }
+            ["next"] => {
+                let svc = self.svc.as_mut().expect("service");
+                match drain_service(&self.rt, svc) {
+                    Ok(events) => format!(
+                        "[{}] conns={} nsub={}",
+                        events.join(","),
+                        show_connections(svc),
+                        self.counter.load(Ordering::Relaxed)
+                    ),
+                    Err((events, msg)) => {
+                        self.poisoned = true;
+                        let class = if msg.contains("assertion failed") {
+                            "debug-assert".to_string()
+                        } else {
+                            format!("other:{msg}")
+                        };
+                        format!("panic {} [{}]", class, events.join(","))
+                    }
+                }
+            }
+            _ => "bad-op".into(),
+        }
+    }
+}
